@@ -13,6 +13,7 @@ import Bee2V.C04.PropsTamperBsts
 import Bee2V.C04.PropsTamperBpace
 import Bee2V.C04.PropsTamperBauth
 import Bee2V.C04.PropsDrv
+import Bee2V.C04.PropsDrv2
 import Bee2V.C04.PropsBelt
 import Bee2V.C04.Toy
 namespace Bee2V.C04
